@@ -228,7 +228,14 @@ func TestVerifC17(t *testing.T) {
 		} else {
 			f.Set("login_destination", d)
 		}
-		code, hdr, cks, _, err := cl.do(method, p, f, cookies, html)
+		code, hdr, cks, body, err := cl.do(method, p, f, cookies, html)
+		// whatever the status: a page that carries the destination to the browser-side scripts is judged like a Location
+		if err == nil && strings.Contains(body, "login_destination_input") {
+			if v, ok := c17HiddenDestination(body); ok {
+				rep.Count("destination_fields_read", 1)
+				judge("page-destination-field:"+path, d, placement, 302, http.Header{"Location": {v}})
+			}
+		}
 		return code, hdr, cks, err
 	}
 	// ---- (a) password login -------------------------------------------------
@@ -281,6 +288,24 @@ func TestVerifC17(t *testing.T) {
 			continue
 		}
 		judge("totp", d, placement, code, hdr)
+	}
+	// ---- (b2) failed second-factor attempts carrying a destination: browsers get a page back (not a redirect); its
+	// destination field is judged by send()
+	for i := 0; i < nSecond && i < 40; i++ {
+		u := fmt.Sprintf("tf%d", i)
+		ck, _ := verifLogin(env, u, "pw-"+u)
+		if _, err := verifEnrollTOTP(env, ck); err != nil {
+			break
+		}
+		vip.SetOTP(u, 123456)
+		d := dests[i]
+		placement := []string{"form", "query"}[i%2]
+		for _, p := range []string{"/api/v0/TOTPAuth", "/api/v0/vipAuth", "/api/v0/bootstrapOtpAuth"} {
+			if code, _, _, err := send("POST", p, url.Values{"OTP": {"000001"}}, d, placement, map[string]string{"auth_cookie": ck}); err == nil {
+				rep.Eval(fmt.Sprintf("failed-second-factor|%s|%d", p, code))
+				rep.Count("failed_second_factor_attempts", 1)
+			}
+		}
 	}
 	// ---- (c) VIP OTP
 	for i := 0; i < nSecond; i++ {
@@ -441,6 +466,7 @@ func TestVerifC17(t *testing.T) {
 		judge("okta-otp", d, "form", code, hdr)
 	}
 	rep.Floor("destination_fields_read", 60)
+	rep.Floor("failed_second_factor_attempts", 60)
 	for _, f := range []string{"password", "totp", "vip-otp", "bootstrap-otp", "oauth2", "oauth2-repeated-begin", "okta-otp"} {
 		rep.Floor("redirects_"+f, 40)
 	}
